@@ -16,6 +16,10 @@ CHECKS = {
   text="Lean theorems for all request lines and header blocks: the answering protocol is the first in the configured order whose predicate accepts (everything before it rejects), its `secure` flag equals the connection's TLS flag for all nine classes, the shipped list (extracted from conf/pygopherd.conf) is total because both catch-alls are present, detection is a function of (order, TLS flag, first line, header lines); documented shapes of Gopher+, HTTP, Gemini, Spartan; the sniff is TLS iff first byte 0x16 and consumes nothing. Tie: class chosen by the real ProtocolMultiplexer vs the model on a near-miss grammar, both TLS values, shipped order and seeded permutations/sub-lists; wrap_socket on a socketpair for all 256 first bytes (complete).",
   note="partial: MSG_PEEK in the kernel and the TLS record layer are runtime; the WAP header regex is mirrored by hand; Lean kernel + standard axioms; harness trusted",
   technique="Lean 4 proof of the detection model + differential correspondence + exhaustive first-byte enumeration"),
+ "C04": dict(
+  text="Lean theorems for all byte strings: the read(copyBlock) loop (block size extracted from VFS_Real.copyto) reproduces the bytes for every positive block size, with non-empty blocks of at most one block; the Gopher+ '+N' header parses back to exactly the body length and the body to the file; unknown size gives '+-2'; HEAD is the GET headers with no body; the WAP text-to-WML conversion is invertible line by line up to right-stripping (and injective); MIME type is the table's answer adjusted per protocol. Tie: blocks written by the real copyto, whole Gopher+/HTTP/WML responses and MIME types vs the model. Oracle: body==file bytes, +N==len, HEAD==GET headers, type==mimetypes, independent WML inverse, for sizes around every multiple of 4096, binary/CRLF/invalid-UTF-8 contents, hostile names, 9 protocol syntaxes, both handler lists.",
+  note="partial: TOCTOU between stat and open, TLS record layer and decompressor/script output are runtime (length oracle only); mimetypes.guess_type is an oracle fed to the model",
+  technique="Lean 4 proof (copy loop, framing, WML inverse) + differential correspondence + byte-equality oracle"),
  "C19": dict(
   text="Lean theorems for every option combination and every fault position (unbounded index) of the start-up model: bind and key loading precede any privilege drop, chroot then chdir('/') then setgroups(()) then setregid then setreuid, root rewritten to '/', failure of any step aborts with nothing executed after it. Tie is complete and kernel-checked: the real initialize() is executed under substituted system calls on all 16 x (1 + fault positions) points and `table_agrees` proves the executed table equals the model's.",
   note="trusted: the substitution of os/pwd/grp/socket/ssl entry points observes every privileged call; kernel behaviour of the real system calls and the detach fork are not modelled",
